@@ -42,7 +42,6 @@ int lrtr_get_monotonic_time(time_t *seconds)
 uint32_t lrtr_get_bits(const uint32_t val, const uint8_t from, const uint8_t number)
 {
 	assert(number < 33);
-	assert(number > 0);
 
 	uint32_t mask = ~0;
 
